@@ -86,7 +86,7 @@ def resolved(s: PathSummary, v: Optional[ast.AST], before: Optional[int] = None,
     before = len(s.effects) if before is None else before
     while depth > 0 and isinstance(v, ast.Name):
         r = s.resolve(v.id, before)
-        if r is None or r[1].value is None or not isinstance(r[1].target, ast.Name):
+        if r is None or r[1].value is None or not isinstance(r[1].target, ast.Name) or not r[1].opaque:
             break
         before, v = r[0], r[1].value
         depth -= 1
@@ -107,7 +107,7 @@ def closed(s: PathSummary, e: Optional[ast.AST], before: Optional[int] = None, d
         def visit_Name(self, n: ast.Name):
             if isinstance(n.ctx, ast.Load) and self.d > 0 and n.id not in keep:
                 r = s.resolve(n.id, before)
-                if r is not None and r[1].value is not None and isinstance(r[1].target, ast.Name) and not (isinstance(r[1].value, ast.Name) and r[1].value.id == n.id):
+                if r is not None and r[1].opaque and r[1].value is not None and isinstance(r[1].target, ast.Name) and not (isinstance(r[1].value, ast.Name) and r[1].value.id == n.id):
                     return T(self.d - 1).visit(_copy.deepcopy(r[1].value))
             return n
 
@@ -131,7 +131,7 @@ def terminal_text(s: PathSummary) -> str:
     if k == "raise":
         e = v.func if isinstance(v, ast.Call) else v
         return "raise " + (ast.unparse(e) if e is not None else "")
-    return "fall"
+    return "return None"  # falling off the end
 
 
 def leaves_loop_early(s: PathSummary) -> bool:
